@@ -68,6 +68,27 @@ def many_clocks_config(rnd):
     return gencfg.HEADER + yaml.safe_dump(cfg, sort_keys=False, default_flow_style=False)
 
 
+def multi_include_config(rnd, work, tag):
+    """an event record type and a data stream type that each include several partial files patching the same
+    properties: the documented result depends on the order in which the files are listed, and only on it"""
+    import yaml
+    names = [f'{tag}_inc{i}.yaml' for i in range(rnd.choice([2, 3, 4]))]
+    for i, n in enumerate(names):
+        with open(os.path.join(work, n), 'w') as f:
+            yaml.safe_dump({'log-level': 3 + i, 'payload-field-type': {'class': 'struct', 'members': [
+                {f'm{i}': {'field-type': {'class': 'uint', 'size': 8 * (1 + i % 4)}}}]}}, f, sort_keys=False)
+    dnames = [f'{tag}_dinc{i}.yaml' for i in range(rnd.choice([2, 3]))]
+    for i, n in enumerate(dnames):
+        with open(os.path.join(work, n), 'w') as f:
+            yaml.safe_dump({'event-record-common-context-field-type': {'class': 'struct', 'members': [
+                {f'c{i}': {'field-type': {'class': 'uint', 'size': 16}}}]}}, f, sort_keys=False)
+    tt = {'native-byte-order': 'le', 'data-stream-types': {
+        'main': {'$include': dnames, '$is-default': True, 'event-record-types': {
+            'sample': {'$include': names}, 'other': {'payload-field-type': {'class': 'struct', 'members': [
+                {'x': {'field-type': {'class': 'uint', 'size': 8}}}]}}}}}}
+    return gencfg.HEADER + yaml.safe_dump({'trace': {'type': tt}}, sort_keys=False, default_flow_style=False)
+
+
 def run(c):
     ss, changed = itersites.regenerate()
     ob = c.proof_obligations()
@@ -97,6 +118,13 @@ def run(c):
             configs.append((text, common.load_cfg(text)))
         except Exception as ex:  # noqa
             c.inconclusive.append(f'many-clocks configuration rejected: {ex}')
+    # a family with several partial files per `$include` list, all patching the same properties
+    for k in range(2 if c.tier == 'quick' else 6):
+        text = multi_include_config(rnd, work, f'mi{k}')
+        try:
+            configs.append((text, common.load_cfg(text, [work])))
+        except Exception as ex:  # noqa
+            c.inconclusive.append(f'multi-include configuration rejected: {ex}')
     jobs = []
     for ci, (text, cfg) in enumerate(configs):
         variants = [text] + [permuted(text, rnd) for _ in range(nperm)]
